@@ -376,11 +376,29 @@ func randCols(rng *rand.Rand, n int, wide bool) []wCol {
 	return cols
 }
 
+// the messages / environment changes generated last: a server repeats itself (the same message twice in
+// a row, in one response or in successive ones), and every occurrence counts
+var (
+	lastEEDs   [2]*wPkg
+	lastEnvPkg *wPkg
+)
+
 func randEED(rng *rand.Rand, info bool) wPkg {
 	status := 0
+	slot := 0
 	if info {
 		status = 2
+		slot = 1
 	}
+	if lastEEDs[slot] != nil && rng.Intn(4) == 0 {
+		return *lastEEDs[slot]
+	}
+	p := randEED1(rng, status)
+	lastEEDs[slot] = &p
+	return p
+}
+
+func randEED1(rng *rand.Rand, status int) wPkg {
 	if rng.Intn(3) == 0 {
 		status |= 1
 	}
@@ -396,6 +414,18 @@ func randEED(rng *rand.Rand, info bool) wPkg {
 }
 
 func randEnv(rng *rand.Rand, packSize int) wPkg {
+	if packSize <= 0 {
+		if lastEnvPkg != nil && rng.Intn(4) == 0 {
+			return *lastEnvPkg
+		}
+		p := randEnv1(rng, packSize)
+		lastEnvPkg = &p
+		return p
+	}
+	return randEnv1(rng, packSize)
+}
+
+func randEnv1(rng *rand.Rand, packSize int) wPkg {
 	n := rng.Intn(4)
 	var ms [][3]string
 	for i := 0; i < n; i++ {
